@@ -1156,15 +1156,28 @@ func checkAtomicCheckOrder(c *core.Ctx) {
 	// compiler: in the atomic address helper, which comes first – the bounds-checking helper or the alignment check?
 	compilerOrder := ""
 	var cpos token.Pos
+	setupFns, _ := boundsHelpers(fp)
+	// the alignment check: the method that emits the unaligned-atomic exit
+	alignFns := map[*types.Func]bool{}
+	core.AllFuncDecls(fp, func(fd *ast.FuncDecl) {
+		ast.Inspect(fd.Body, func(x ast.Node) bool {
+			if se, ok := x.(*ast.SelectorExpr); ok && se.Sel.Name == "ExitCodeUnalignedAtomic" {
+				if f, ok := fp.TypesInfo.Defs[fd.Name].(*types.Func); ok {
+					alignFns[f] = true
+				}
+			}
+			return true
+		})
+	})
 	core.AllFuncDecls(fp, func(fd *ast.FuncDecl) {
 		var bounds, align token.Pos
 		ast.Inspect(fd.Body, func(x ast.Node) bool {
 			if call, ok := x.(*ast.CallExpr); ok {
 				if f := core.Callee(fp.TypesInfo, call); f != nil {
-					if f.Name() == "memOpSetup" && bounds == 0 {
+					if setupFns[f] && bounds == 0 {
 						bounds = call.Pos()
 					}
-					if strings.Contains(strings.ToLower(f.Name()), "alignment") && align == 0 {
+					if alignFns[f] && align == 0 {
 						align = call.Pos()
 					}
 				}
